@@ -16,6 +16,14 @@ CLAIMS = {
         note=('Trusted: extractor + lowering rules, CBMC/cvc5, stubs; the prefix sum is an abstract monotone lookup (assumed contract); determineUnitRanges* use the cut view of '
               'divideNodesBinarySearch, an assumed contract that is the consequence of the proved adjacency/ends lemmas (one hand-made step); template code for the listed instantiations only; '
               'signed block_range and the node pieces of divideByEdge are not claimed.')),
+    'C09': dict(
+        text=('Proof, per function: BumpHeap::refill/allocate/allocate(size,allocated&), BumpWithMallocHeap::refill/allocate (the per-iteration heap), BlockHeap<1|8|24|40>::refill/allocate '
+              '(struct layout and "how many fit" enum extracted from the class), FreeListHeap::allocate/deallocate, Pow_2_BlockHeap::pow2/nextLog2/allocateBlock/deallocateBlock, '
+              'PerBackend::nextLog2/allocOffset are extracted from the working tree, lowered to C and verified against contracts: the returned block is non-null, inside its chunk/page, '
+              '8-byte (cache-line for per-thread storage) aligned relative to the chunk, at least as large as requested, and disjoint from an arbitrary ghost live block; '
+              'blocks are reused only via the free list; size classes are the same on free as on allocate; loops closed by invariants.'),
+        note=('Trusted: source heap/malloc return fresh objects (assumed contracts), alignment relative to the chunk start, PerBackend rely on nextLoc (<= 511 threads) and free-list stub invariant, heap-table stub. '
+              'Not decided: concurrent use of shared heaps, NUMA large arrays, mmap page pool, clear() list walks, deallocOffset, SizedHeapFactory.')),
     'C15': dict(
         text=('Proof, per function: every shipped reducer functor and identity functor (int32/uint32/int64/uint64/float/double) satisfies merge(x,id)=x=merge(id,x) for all (finite) x; '
               'Reducible::merge/update/reduce/reset (reduce = left fold of the per-thread slots, slots re-armed; thread count <= 16 as a configuration bound), GAccumulator +=/-=, '
